@@ -8,10 +8,18 @@
      s_es5rep = true : RepeatMatcher proper: an iteration that consumes nothing
                        once min is exhausted is a failure (step 2.1);
               = false: Go's regexp/syntax: x{n,m} is unfolded to n copies and
-                       m-n nested x?, x{n,} to n-1 copies and x+, x* is (x+)?,
-                       and in x+ an empty iteration is accepted but ends the loop
-                       (the thread that returns to the loop head at the same
-                       position is dropped).
+                       m-n nested x?, x{n,} to n-1 copies and x+, x* is (x+)? when
+                       x can match the empty string and  L: split(x -> L, out)  otherwise;
+                       x+ is  L: x; split(L, out)  and a thread that comes back
+                       to a branching program point at a position where that
+                       point is already on its path is dropped (so an empty
+                       iteration is neither simply accepted nor simply a
+                       failure: it depends on which point is reached again
+                       first); the nested x? are separate copies and accept
+                       empty iterations;
+     s_es5chr = true : \s is WhiteSpace + LineTerminator, . excludes and multiline
+                       ^ $ recognise the four LineTerminators;
+              = false: Go's tables: \s = [\t\n\f\r ], only \n is a line end.
    [es5] is the specification; [re2] is the reading of the engine that the
    correspondence run validates against otto on every generated case.
 
@@ -22,15 +30,14 @@ From Otto Require Import C10.SpecSyntax.
 Import ListNotations.
 Open Scope Z_scope.
 
-Record sem := mkSem { s_reset : bool; s_es5rep : bool }.
-Definition es5 : sem := mkSem true true.
-Definition re2 : sem := mkSem false false.
+Record sem := mkSem { s_reset : bool; s_es5rep : bool; s_es5chr : bool }.
+Definition es5 : sem := mkSem true true true.
+Definition re2 : sem := mkSem false false false.
 
 Record mflags := mkFlags { f_ic : bool; f_ml : bool }.
 
 Definition caps := list (option (nat * nat)).
 Inductive mres := MFail | MOk (e : nat) (c : caps) | MFuel.
-Definition cont := nat -> caps -> mres.
 
 (* ---------- characters ---------- *)
 Definition upper (c : Z) : Z :=
@@ -53,10 +60,14 @@ Definition is_space (c : Z) : bool :=
   (c =? 5760) || (c =? 6158) || ((8192 <=? c) && (c <=? 8202)) || (c =? 8232) || (c =? 8233) ||
   (c =? 8239) || (c =? 8287) || (c =? 12288) || (c =? 65279).
 
-Definition esccls (k : Z) (ch : Z) : bool :=
+(* Go: \s = [\t\n\f\r ] *)
+Definition is_space_go (c : Z) : bool := (c =? 9) || (c =? 10) || (c =? 12) || (c =? 13) || (c =? 32).
+
+Definition esccls (es5chr : bool) (k : Z) (ch : Z) : bool :=
+  let sp := if es5chr then is_space ch else is_space_go ch in
   if k =? 100 then is_digit ch else if k =? 68 then negb (is_digit ch)
   else if k =? 119 then is_word ch else if k =? 87 then negb (is_word ch)
-  else if k =? 115 then is_space ch else negb (is_space ch).
+  else if k =? 115 then sp else negb sp.
 
 Definition in_range (lo hi c : Z) : bool := (lo <=? c) && (c <=? hi).
 (* exists a in [lo,hi] with Canonicalize a = Canonicalize ch *)
@@ -64,11 +75,11 @@ Definition range_match (ic : bool) (lo hi ch : Z) : bool :=
   if ic then in_range lo hi (upper ch) || in_range lo hi (lower_of_upper (upper ch))
   else in_range lo hi ch.
 
-Definition item_match (ic : bool) (i : citem) (ch : Z) : bool :=
+Definition item_match (es5chr : bool) (ic : bool) (i : citem) (ch : Z) : bool :=
   match i with
   | CI1 c => canon ic (ch_val c) =? canon ic ch
   | CIRange lo hi => range_match ic (ch_val lo) (ch_val hi) ch
-  | CIEsc k => esccls k ch
+  | CIEsc k => esccls es5chr k ch
   | CIBs => 8 =? ch
   end.
 
@@ -92,16 +103,52 @@ Definition quant_max (q : quant) : option nat :=
   match q with QStar => None | QPlus => None | QOpt => Some 1%nat | QN n => Some n | QNInf _ => None | QNM _ m => Some m end.
 
 (* ---------- the matcher ---------- *)
+(* Program points of the engine's compiled program that branch (alternation,
+   the split of x?, the split after the body of x+): the engine drops a thread
+   that reaches such a point a second time without having consumed a character
+   (regexp's visited set per position; for points that are not on the thread's
+   own path this is ordinary memoisation and does not change the result).
+   [vis] = the branch points already on the path at the current position. *)
+Definition vset := list Z.
+Definition cont := nat -> caps -> vset -> mres.
+Definition pt (salt : Z) (ni : nat) (kind : Z) : Z := (salt * 4096 + Z.of_nat ni) * 32 + kind.
+Definition seen (p : Z) (v : vset) : bool := existsb (Z.eqb p) v.
+(* copy j of the body of a counted repetition is a separate piece of program *)
+Definition copy_salt (salt : Z) (j : nat) : Z := salt * 16 + Z.of_nat j + 1.
+
+(* number of nodes, for numbering them in preorder *)
+Fixpoint nsize (r : re) : nat :=
+  match r with
+  | RGroup r | RNcGroup r | RLook _ r => S (nsize r)
+  | RSeq a b | RAlt a b => S (nsize a + nsize b)
+  | RQuant a _ _ => S (nsize a)
+  | _ => 1%nat
+  end.
+
+(* the engine compiler's notion: can the fragment match without consuming *)
+Fixpoint nullable (r : re) : bool :=
+  match r with
+  | REmpty | RBol | REol | RWordB | RNWordB => true
+  | RGroup r | RNcGroup r | RLook _ r => nullable r
+  | RSeq a b => nullable a && nullable b
+  | RAlt a b => nullable a || nullable b
+  | RQuant a q _ => (quant_min q =? 0)%nat || nullable a
+  | _ => false
+  end.
+
 Inductive job :=
-| JM (r : re) (gi : nat) (x : nat) (c : caps) (k : cont)
+    (* tree, index of its first group, node number, copy salt, position, captures, visited, continuation *)
+| JM (r : re) (gi ni : nat) (salt : Z) (x : nat) (c : caps) (v : vset) (k : cont)
     (* 15.10.2.5 RepeatMatcher(m, min, max, greedy, x, c, parenIndex, parenCount) *)
-| JRep (a : re) (gi : nat) (min : nat) (max : option nat) (greedy : bool) (x : nat) (c : caps) (k : cont)
-    (* engine: n copies of a, then k *)
-| JCopies (a : re) (gi : nat) (n : nat) (x : nat) (c : caps) (k : cont)
-    (* engine: a+ *)
-| JPlus (a : re) (gi : nat) (greedy : bool) (x : nat) (c : caps) (k : cont)
-    (* engine: (a(a(a)?)?)? nested n deep *)
-| JOpt (a : re) (gi : nat) (n : nat) (greedy : bool) (x : nat) (c : caps) (k : cont).
+| JRep (a : re) (gi ni : nat) (salt : Z) (min : nat) (max : option nat) (greedy : bool) (x : nat) (c : caps) (v : vset) (k : cont)
+    (* engine: copies j .. j+n-1 of a, then k *)
+| JCopies (a : re) (gi ni : nat) (salt : Z) (j n : nat) (x : nat) (c : caps) (v : vset) (k : cont)
+    (* engine: a+ (copy j) *)
+| JPlus (a : re) (gi ni : nat) (salt : Z) (j : nat) (greedy : bool) (x : nat) (c : caps) (v : vset) (k : cont)
+    (* engine: a* for a body that always consumes:  L: split(a -> L, out) *)
+| JLoop (a : re) (gi ni : nat) (salt : Z) (greedy : bool) (x : nat) (c : caps) (v : vset) (k : cont)
+    (* engine: (a(a(a)?)?)? nested n deep, copies j.. *)
+| JOpt (a : re) (gi ni : nat) (salt : Z) (j n : nat) (greedy : bool) (x : nat) (c : caps) (v : vset) (k : cont).
 
 Definition orelse (a : mres) (b : unit -> mres) : mres :=
   match a with MFail => b tt | z => z end.
@@ -117,74 +164,99 @@ Definition word_at (x : nat) (before : bool) : bool :=
   if before then (match x with O => false | S x' => is_word (at_ x') end)
   else if (x <? len)%nat then is_word (at_ x) else false.
 
+Definition line_term (c : Z) : bool := if s_es5chr sm then is_line_term c else (c =? 10).
+
 Definition iter_caps (c : caps) (a : re) (gi : nat) : caps :=
   if s_reset sm then reset_caps c gi (ngroups a) else c.
 
+(* arrive at branch point p: fail if it is already on the path *)
+Definition branch (p : Z) (v : vset) (f : vset -> mres) : mres :=
+  if s_es5rep sm then f v else if seen p v then MFail else f (p :: v).
+
 Definition m_step (self : job -> mres) (j : job) : mres :=
   match j with
-  | JM r gi x c k =>
+  | JM r gi ni salt x c v k =>
       match r with
-      | REmpty => k x c
+      | REmpty => k x c v
       | RCh ch =>
-          if (x <? len)%nat && (canon (f_ic fl) (ch_val ch) =? canon (f_ic fl) (at_ x)) then k (S x) c else MFail
-      | RDot => if (x <? len)%nat && negb (is_line_term (at_ x)) then k (S x) c else MFail
-      | REscCls kk => if (x <? len)%nat && esccls kk (at_ x) then k (S x) c else MFail
+          if (x <? len)%nat && (canon (f_ic fl) (ch_val ch) =? canon (f_ic fl) (at_ x)) then k (S x) c [] else MFail
+      | RDot => if (x <? len)%nat && negb (line_term (at_ x)) then k (S x) c [] else MFail
+      | REscCls kk => if (x <? len)%nat && esccls (s_es5chr sm) kk (at_ x) then k (S x) c [] else MFail
       | RClass neg items =>
-          if (x <? len)%nat && xorb neg (existsb (fun i => item_match (f_ic fl) i (at_ x)) items) then k (S x) c else MFail
+          if (x <? len)%nat && xorb neg (existsb (fun i => item_match (s_es5chr sm) (f_ic fl) i (at_ x)) items) then k (S x) c [] else MFail
       | RBol =>
-          if (x =? 0)%nat || (f_ml fl && is_line_term (at_ (pred x))) then k x c else MFail
+          if (x =? 0)%nat || (f_ml fl && line_term (at_ (pred x))) then k x c v else MFail
       | REol =>
-          if (x =? len)%nat || (f_ml fl && is_line_term (at_ x)) then k x c else MFail
-      | RWordB => if xorb (word_at x true) (word_at x false) then k x c else MFail
-      | RNWordB => if xorb (word_at x true) (word_at x false) then MFail else k x c
-      | RGroup r1 => self (JM r1 (S gi) x c (fun y cy => k y (set_nth gi (Some (x, y)) cy)))
-      | RNcGroup r1 => self (JM r1 gi x c k)
+          if (x =? len)%nat || (f_ml fl && (x <? len)%nat && line_term (at_ x)) then k x c v else MFail
+      | RWordB => if xorb (word_at x true) (word_at x false) then k x c v else MFail
+      | RNWordB => if xorb (word_at x true) (word_at x false) then MFail else k x c v
+      | RGroup r1 => self (JM r1 (S gi) (S ni) salt x c v (fun y cy vy => k y (set_nth gi (Some (x, y)) cy) vy))
+      | RNcGroup r1 => self (JM r1 gi (S ni) salt x c v k)
       | RLook _ _ => MFuel      (* outside the modelled subset *)
       | RBackref _ => MFuel
-      | RSeq a b => self (JM a gi x c (fun y cy => self (JM b (gi + ngroups a)%nat y cy k)))
-      | RAlt a b => orelse (self (JM a gi x c k)) (fun _ => self (JM b (gi + ngroups a)%nat x c k))
+      | RSeq a b => self (JM a gi (S ni) salt x c v (fun y cy vy => self (JM b (gi + ngroups a)%nat (S ni + nsize a)%nat salt y cy vy k)))
+      | RAlt a b =>
+          branch (pt salt ni 0) v (fun v' =>
+            orelse (self (JM a gi (S ni) salt x c v' k))
+                   (fun _ => self (JM b (gi + ngroups a)%nat (S ni + nsize a)%nat salt x c v' k)))
       | RQuant a q g =>
           let mn := quant_min q in
           let mx := quant_max q in
-          if s_es5rep sm then self (JRep a gi mn mx g x c k)
+          if s_es5rep sm then self (JRep a gi ni salt mn mx g x c v k)
           else match mx with
-               | Some O => k x c
-               | Some m => self (JCopies a gi mn x c (fun y cy => self (JOpt a gi (m - mn) g y cy k)))
+               | Some O => k x c v
+               | Some m => self (JCopies a gi ni salt 0 mn x c v (fun y cy vy => self (JOpt a gi ni salt mn (m - mn) g y cy vy k)))
                | None =>
                    match mn with
-                   | O => if g then orelse (self (JPlus a gi g x c k)) (fun _ => k x c)
-                          else orelse (k x c) (fun _ => self (JPlus a gi g x c k))
-                   | S mn' => self (JCopies a gi mn' x c (fun y cy => self (JPlus a gi g y cy k)))
+                   | O =>
+                       if nullable a then
+                         (* (a+)? : the split of ? and the split after the body are two points *)
+                         branch (pt salt ni 1) v (fun v' =>
+                            if g then orelse (self (JPlus a gi ni salt 0 g x c v' k)) (fun _ => k x c v')
+                            else orelse (k x c v') (fun _ => self (JPlus a gi ni salt 0 g x c v' k)))
+                       else self (JLoop a gi ni salt g x c v k)
+                   | S mn' => self (JCopies a gi ni salt 0 mn' x c v (fun y cy vy => self (JPlus a gi ni salt mn' g y cy vy k)))
                    end
                end
       end
-  | JRep a gi mn mx g x c k =>
+  | JRep a gi ni salt mn mx g x c v k =>
       match mx with
-      | Some O => k x c
+      | Some O => k x c v
       | _ =>
-          let d : cont := fun y cy =>
+          let d : cont := fun y cy vy =>
             if (mn =? 0)%nat && (y =? x)%nat then MFail
-            else self (JRep a gi (pred mn) (option_map pred mx) g y cy k) in
+            else self (JRep a gi ni salt (pred mn) (option_map pred mx) g y cy vy k) in
           let cr := iter_caps c a gi in
-          if negb (mn =? 0)%nat then self (JM a gi x cr d)
-          else if g then orelse (self (JM a gi x cr d)) (fun _ => k x c)
-          else orelse (k x c) (fun _ => self (JM a gi x cr d))
+          if negb (mn =? 0)%nat then self (JM a gi (S ni) salt x cr v d)
+          else if g then orelse (self (JM a gi (S ni) salt x cr v d)) (fun _ => k x c v)
+          else orelse (k x c v) (fun _ => self (JM a gi (S ni) salt x cr v d))
       end
-  | JCopies a gi n x c k =>
+  | JCopies a gi ni salt j n x c v k =>
       match n with
-      | O => k x c
-      | S n' => self (JM a gi x (iter_caps c a gi) (fun y cy => self (JCopies a gi n' y cy k)))
+      | O => k x c v
+      | S n' => self (JM a gi (S ni) (copy_salt salt j) x (iter_caps c a gi) v
+                         (fun y cy vy => self (JCopies a gi ni salt (S j) n' y cy vy k)))
       end
-  | JPlus a gi g x c k =>
-      self (JM a gi x (iter_caps c a gi) (fun y cy =>
-        let again := fun _ : unit => if (y =? x)%nat then MFail else self (JPlus a gi g y cy k) in
-        if g then orelse (again tt) (fun _ => k y cy) else orelse (k y cy) again))
-  | JOpt a gi n g x c k =>
+  | JPlus a gi ni salt j g x c v k =>
+      self (JM a gi (S ni) (copy_salt salt j) x (iter_caps c a gi) v (fun y cy vy =>
+        branch (pt salt ni 2) vy (fun vy' =>
+          if g then orelse (self (JPlus a gi ni salt j g y cy vy' k)) (fun _ => k y cy vy')
+          else orelse (k y cy vy') (fun _ => self (JPlus a gi ni salt j g y cy vy' k)))))
+  | JLoop a gi ni salt g x c v k =>
+      branch (pt salt ni 2) v (fun v' =>
+        let body := fun _ : unit =>
+          self (JM a gi (S ni) (copy_salt salt 0) x (iter_caps c a gi) v'
+                   (fun y cy vy => self (JLoop a gi ni salt g y cy vy k))) in
+        if g then orelse (body tt) (fun _ => k x c v') else orelse (k x c v') body)
+  | JOpt a gi ni salt j n g x c v k =>
       match n with
-      | O => k x c
+      | O => k x c v
       | S n' =>
-          let body := fun _ : unit => self (JM a gi x (iter_caps c a gi) (fun y cy => self (JOpt a gi n' g y cy k))) in
-          if g then orelse (body tt) (fun _ => k x c) else orelse (k x c) body
+          branch (pt salt ni (3 + Z.of_nat j)) v (fun v' =>
+            let body := fun _ : unit =>
+              self (JM a gi (S ni) (copy_salt salt j) x (iter_caps c a gi) v'
+                       (fun y cy vy => self (JOpt a gi ni salt (S j) n' g y cy vy k))) in
+            if g then orelse (body tt) (fun _ => k x c v') else orelse (k x c v') body)
       end
   end.
 
@@ -196,7 +268,7 @@ Fixpoint run (fuel : nat) (j : job) : mres :=
 
 (* 15.10.2.2: the pattern as a matcher applied at index i *)
 Definition match_at (fuel : nat) (r : re) (i : nat) : mres :=
-  run fuel (JM r O i (repeat None (ngroups r)) (fun y c => MOk y c)).
+  run fuel (JM r O O 0 i (repeat None (ngroups r)) [] (fun y c _ => MOk y c)).
 
 (* first index >= i (trying n+1 of them) where the pattern matches *)
 Fixpoint search_from (fuel : nat) (r : re) (i : nat) (n : nat) : option (nat * mres) :=
